@@ -365,7 +365,8 @@ def r20b(run, cg):
 
 def r20c(run, cg):
     C = run.repo.cls("utype.utils.base", "TypeRegistry")
-    reg = run.repo.func("utype.utils.base", "TypeRegistry.register.decorator")
+    from .c16 import registration_writer
+    reg = registration_writer(run)
     res = run.repo.func("utype.utils.base", "TypeRegistry.resolve")
     globs = set(run.repo.module("utype.utils.base").assigns)
     sites = []
